@@ -565,9 +565,10 @@ class Mitochondria:
                     if any(kw.arg is None for kw in node.keywords):
                         raise ValueError("** arguments are not supported")
                     kwargs = {kw.arg: self._compute_node(kw.value) for kw in node.keywords}
-                    if callable(func):
-                        return func(*args, **kwargs)
-                    return func  # Constants like pi, e
+                    if not callable(func):
+                        # Constants like pi, e: Python raises TypeError for `pi()`
+                        raise TypeError(f"'{func_name}' is not callable")
+                    return func(*args, **kwargs)
                 raise ValueError(f"Unknown function: {func_name}")
             raise ValueError("Complex function calls not supported")
 
